@@ -228,6 +228,8 @@ private:
 	static bool pvIsSorted(Iterator begin, size_t count, const IterHashFunc& iterHashFunc,
 		const EqualFunc& equalFunc)
 	{
+		if (count == 0)
+			return true;
 		size_t prevIndex = 0;
 		HashCode prevHash = iterHashFunc(begin);
 		for (size_t i = 1; i < count; ++i)
@@ -341,6 +343,8 @@ private:
 	static FindResult<Iterator> pvFindHash(Iterator begin, size_t count,
 		HashCode itemHash, const IterHashFunc& iterHashFunc)
 	{
+		if (count == 0)
+			return { begin, false };
 		auto iterComparer = [itemHash, &iterHashFunc] (Iterator iter)
 			{ return pvCompare(iterHashFunc(iter), itemHash); };
 		size_t leftIndex = 0;
